@@ -5,7 +5,7 @@ import os
 import sys
 
 sys.path.insert(0, os.path.dirname(os.path.abspath(__file__)))
-from py2coq import HEADER, FnCfg, Translator, Unsupported  # noqa: E402
+from py2coq import HEADER, FnCfg, Translator, Unsupported, a_of_fraction, cname  # noqa: E402
 
 
 def write_if_changed(path, text):
@@ -215,6 +215,70 @@ def gen_speciesio(repo, out):
     write_if_changed(os.path.join(out, "GenSpeciesIO.v"), "\n".join(out_lines) + "\n")
 
 
+def heat_capacity_def(t):
+    """LTE.calculate_heat_capacity as a function of an enthalpy oracle H (the enthalpy of the mixture re-solved at the
+    temperature it is given; which caches that evaluation refreshes is C03's model).  Only this statement shape is
+    accepted -- save T; try: T := e1; a := enthalpy(); T := e2; b := enthalpy(); finally: T := saved; return e3 --
+    anything else is refused."""
+    fn = t.find("LTE.calculate_heat_capacity")
+    args = [a.arg for a in fn.args.args]
+    if args != ["self", "rel_delta_T"] or len(fn.args.defaults) != 1 or fn.args.kwonlyargs or fn.args.vararg or fn.args.kwarg:
+        t.fail(fn, f"signature of calculate_heat_capacity is {args}")
+    body = [st for st in fn.body if not t.is_doc(st)]
+
+    def self_T(n):
+        return isinstance(n, ast.Attribute) and isinstance(n.value, ast.Name) and n.value.id == "self" and n.attr == "T"
+
+    def set_T(st):
+        return isinstance(st, ast.Assign) and len(st.targets) == 1 and self_T(st.targets[0])
+
+    def enth(st):
+        return (isinstance(st, ast.Assign) and len(st.targets) == 1 and isinstance(st.targets[0], ast.Name)
+                and isinstance(st.value, ast.Call) and not st.value.args and not st.value.keywords
+                and isinstance(st.value.func, ast.Attribute) and st.value.func.attr == "calculate_enthalpy"
+                and isinstance(st.value.func.value, ast.Name) and st.value.func.value.id == "self")
+
+    ok = (len(body) == 3 and isinstance(body[0], ast.Assign) and len(body[0].targets) == 1
+          and isinstance(body[0].targets[0], ast.Name) and self_T(body[0].value)
+          and isinstance(body[1], ast.Try) and not body[1].handlers and not body[1].orelse
+          and len(body[1].body) == 4 and set_T(body[1].body[0]) and enth(body[1].body[1])
+          and set_T(body[1].body[2]) and enth(body[1].body[3])
+          and len(body[1].finalbody) == 1 and set_T(body[1].finalbody[0])
+          and isinstance(body[1].finalbody[0].value, ast.Name)
+          and body[1].finalbody[0].value.id == body[0].targets[0].id
+          and isinstance(body[2], ast.Return) and body[2].value is not None)
+    if not ok:
+        t.fail(fn, "calculate_heat_capacity does not have the shape save T / perturb / enthalpy / perturb / enthalpy / restore / return")
+    saved = body[0].targets[0].id
+    tr = body[1].body
+    n1, n2 = tr[1].targets[0].id, tr[3].targets[0].id
+    if len({saved, n1, n2, "rel_delta_T"}) != 4:
+        t.fail(fn, "calculate_heat_capacity re-uses a local name")
+    cfg = FnCfg("heat_capacity", [])
+    env = {saved: "A", "rel_delta_T": "A"}
+    for e in (tr[0].value, tr[2].value):
+        if t.uses_self([e]):
+            t.fail(e, "perturbed temperature reads the object")
+    e1, ty1 = t.ex(tr[0].value, env, cfg)
+    e2, ty2 = t.ex(tr[2].value, env, cfg)
+    env2 = dict(env)
+    env2[n1] = "A"
+    env2[n2] = "A"
+    # after the `finally` clause self.T is the saved temperature again
+    env2["self"] = ("obj", {"T": (cname(saved), "A")})
+    e3, ty3 = t.ex(body[2].value, env2, cfg)
+    dflt = t.const_fraction(fn.args.defaults[0])
+    if dflt is None:
+        t.fail(fn, "default rel_delta_T is not a literal")
+    t.out.append(f"Definition heat_capacity_default_delta : A := {a_of_fraction(dflt)}.\n")
+    t.out.append(
+        f"Definition heat_capacity (H : A -> A) (mix_T rel_delta_T : A) : A :=\n"
+        f"  let {cname(saved)} := mix_T in\n"
+        f"  let {cname(n1)} := H {t.inj(e1, ty1, fn)} in\n"
+        f"  let {cname(n2)} := H {t.inj(e2, ty2, fn)} in\n"
+        f"  {t.inj(e3, ty3, fn)}.\n")
+
+
 def gen_mixture(repo, out):
     t = Translator(os.path.join(repo, "src/minplascalc/mixture.py"), "mixture.py")
     # `self` is read through T, the species tuple, the composition and the cached E0 / dE: parameters here.
@@ -237,6 +301,7 @@ def gen_mixture(repo, out):
                FnCfg("enthalpy", [],
                      coq_params="(mix_T : A) (mix_species : list (species A)) (mix_nd : list A) (mix_E0 mix_dE : list A)"),
                self_obj=("obj", fields2))
+    heat_capacity_def(t)
     write_if_changed(os.path.join(out, "GenMixture.v"), t.render(HEADER.format(extra=" GenSpecies"), "GenMixture"))
 
 
